@@ -28,6 +28,7 @@ import (
 	"bytes"
 	"fmt"
 	"math"
+	"regexp"
 	"strconv"
 	"strings"
 
@@ -103,12 +104,23 @@ func TypeIsObject(d Datum) (bool, string) {
 // Used to convert nodesets as well as strings.  Returns NaN in cases of
 // error.
 func numberFromString(numStr string) float64 {
-	num, err := strconv.ParseFloat(strings.TrimSpace(numStr), 0)
-	if err != nil {
+	// XPATH section 4.4: optional (XML) whitespace, an optional minus sign, a
+	// Number (Digits ('.' Digits?)? | '.' Digits) and optional whitespace;
+	// any other string - '+5', '1e3', '0x10', 'inf' ... - converts to NaN.
+	// The spellings produced by string() for the infinities are kept.
+	trimmed := strings.Trim(numStr, " \t\r\n")
+	if !xpathNumberRegexp.MatchString(trimmed) {
+		return math.NaN()
+	}
+	num, err := strconv.ParseFloat(trimmed, 64)
+	if err != nil && !math.IsInf(num, 0) {
 		return math.NaN()
 	}
 	return num
 }
+
+var xpathNumberRegexp = regexp.MustCompile(
+	`^-?([0-9]+(\.[0-9]*)?|\.[0-9]+|Infinity)$`)
 
 // Purely for testing - allows us to exercise error handling code.
 type invalidDatum struct {
